@@ -765,6 +765,29 @@ func TestC11_Rebalance(t *testing.T) {
 }
 
 // stress unit for the schedule the harness does not own: the library's finish-token waiter vs. the reopen
+// histories with rebalances on the model-based engine: after every rebalance the member streams the whole range of the most
+// recent membership information - also when the server ends a freshly requested stream with a transient cause while the
+// rebalance is still completing (the vBucket is requested again, as at any other time)
+func TestC11_ReopenHistory(t *testing.T) {
+	w := hWeights{deliver: 40, ack: 26, save: 6, rebalance: 14, absorbed: 8, maxVb: scale(6, 12), minOps: 1, maxOps: scale(40, 120)}
+	known := isKnown("C01", sigF1)
+	rapid.Check(t, func(rt *rapid.T) {
+		sc := genHistory(rt, w)
+		sc.EndOnClose = rapid.Bool().Draw(rt, "endOnClose")
+		journal("C11", "c11rehist", sc)
+		v, labels, _ := runHistory(&sc, known != nil, "C11")
+		journalDone()
+		if v != nil {
+			violation(rt, v.Prop, "c11rehist", sc, "%s", v.Detail)
+		}
+		record("C11", sc, labels["transient_end_while_rebalance_completes"], append(labelList(labels), "reopen_histories")...)
+	})
+}
+
+func init() {
+	registerReplay("c11rehist", histReplayer(func() bool { return false }, "C11"))
+}
+
 func TestC11_Stress(t *testing.T) {
 	sc := c11Stress{Rebalances: scale(4000, 40000), Spinners: 8}
 	if d := c11ExecStress(sc); d != "" {
